@@ -199,11 +199,15 @@ def oracle_body(f: dict, kw: dict):
     return s, {o: one(f"{s}.{o}") for o in outs}
 
 
+CALL_INDEX: list = []  # side channel of the last denote(): (fname, tag, {index name: position}) per call
+
+
 def denote(prog: dict, requested: set | None = None) -> tuple[dict, list]:
     """-> (values: name -> nested lists / raw value, calls: list of (fname, tag) in a valid order).
     Evaluates functions in listing order restricted to a topological order."""
     vals: dict[str, Any] = {n: nested_input(n, d) for n, d in prog["inputs"].items() if not d.get("omit")}
     calls: list = []
+    CALL_INDEX.clear()
     pending = list(prog["funcs"])
     while pending:
         progressed = False
@@ -232,6 +236,7 @@ def _eval_func(f: dict, vals: dict, calls: list):
         kw = {p: _arg(f, p, vals) for p in f["params"]}
         tag, outs = oracle_body(f, kw)
         calls.append((f["name"], tag))
+        CALL_INDEX.append((f["name"], tag, {}))
         vals.update(outs)
         return
     oidx = ref.output_indices(spec)
@@ -265,6 +270,7 @@ def _eval_func(f: dict, vals: dict, calls: list):
             kw[p] = v
         tag, outs = oracle_body(f, kw)
         calls.append((f["name"], tag))
+        CALL_INDEX.append((f["name"], tag, dict(where)))
         for o in f["outputs"]:
             if internal:
                 for t in itertools.product(*[range(d) for d in internal]):
